@@ -3,7 +3,7 @@
     f32, scaled by a power of two where stated); an implementation distance arrives as its
     binary32 BIT PATTERN and is compared with the model's exact integer through Vec/F32.v. *)
 From Coq Require Import ZArith List Bool.
-From GV Require Export Vec.Hnsw Vec.Brute Vec.Kernel Vec.F32 Vec.Quant Vec.Inst.
+From GV Require Export Vec.Hnsw Vec.Brute Vec.Kernel Vec.F32 Vec.Quant Vec.Inst Vec.Wrap.
 Import ListNotations.
 Open Scope Z_scope.
 
@@ -86,6 +86,40 @@ Definition dump_ok (s : state zvec) (d : dump) : bool :=
 Definition odump_ok (s : state zvec) (d : option dump) : bool :=
   match d with Some d => dump_ok s d | None => true end.
 
+(** ---- layer-0 reachability (the property promises k results for REACHABLE vectors) ---- *)
+Fixpoint reach_fuel (f : nat) (m : nodemap zvec) (todo seen : list Z) : list Z :=
+  match f with
+  | O => seen
+  | S f' => match todo with
+            | [] => seen
+            | x :: t => let seen' := if memz x seen then seen else seen ++ [x] in
+                        let new := filter (fun y => negb (memz y seen') && negb (memz y t)) (nbrs m x 0) in
+                        reach_fuel f' m (t ++ new) seen'
+            end
+  end.
+Definition reachable_from (s : state zvec) (a : Z) : Z :=
+  zlen (reach_fuel (fuel_of (nodes s)) (nodes s) [a] []).
+(** the node the layer-0 beam search of [search_with_ef] starts from *)
+Definition start0 (mt : metric) (s : state zvec) (q : zvec) : option Z :=
+  match entry s with
+  | Some ep => Some (descend zvec Z (zdist mt) ztop Z.ltb (nodes s) q (max_level s) 0 ep)
+  | None => None
+  end.
+(** [search_complete] on the model's own result: at least min(k, number of nodes that layer-0
+    links reach from the start) entries *)
+Definition complete_ok (mt : metric) (s : state zvec) (q : zvec) (k : Z) (n : Z) : bool :=
+  match nodes s, start0 mt s q with
+  | _ :: _, Some a => Z.min (Z.max 0 k) (reachable_from s a) <=? n
+  | _, _ => true
+  end.
+(** observation (not a property failure: the property speaks of reachable vectors): some live
+    node is not reachable through layer-0 links from the search's start *)
+Definition unreachable_state (mt : metric) (q : zvec) (s : state zvec) : bool :=
+  match start0 mt s q with
+  | Some a => reachable_from s a <? zlen (nodes s)
+  | None => false
+  end.
+
 Inductive hop :=
 | HInsert (id : Z) (v : zvec) (level : nat) (d : option dump)
     (** [pick]: Some p = the entry the implementation chose is known (hook) or forced;
@@ -117,7 +151,7 @@ Definition hstep (mt : metric) (c : config) (ss : list (state zvec)) (o : hop) :
                        else [fst (hnsw_remove s id None)]
              end
            else []) ss)
-  | HSearch q k ef impl => filter (fun s => res_ok mt (xsearch (zext mt) s q k ef) impl) ss
+  | HSearch q k ef impl => filter (fun s => res_ok mt (xsearch (zext mt) s q k ef) impl && complete_ok mt s q k (zlen impl)) ss
   | HBatch qs k ef impl => filter (fun s => list_eqb (res_ok mt) (xbatch (zext mt) s qs k ef) impl) ss
   | HLen n => filter (fun s => zlen (nodes s) =? n) ss
   end.
@@ -134,41 +168,6 @@ Definition chk_history (mt : metric) (c : config) (ops : list hop) : bool :=
   match snd (hrun mt c [empty] ops 0) with [] => false | _ => true end.
 (** diagnostics: index of the first operation the model cannot follow *)
 Definition show_history (mt : metric) (c : config) (ops : list hop) : Z := fst (hrun mt c [empty] ops 0).
-
-(** ---- layer-0 reachability of the model state after a history (searched on every run) ---- *)
-Fixpoint reach_fuel (f : nat) (m : nodemap zvec) (todo seen : list Z) : list Z :=
-  match f with
-  | O => seen
-  | S f' => match todo with
-            | [] => seen
-            | x :: t => let seen' := if memz x seen then seen else seen ++ [x] in
-                        let new := filter (fun y => negb (memz y seen') && negb (memz y t)) (nbrs m x 0) in
-                        reach_fuel f' m (t ++ new) seen'
-            end
-  end.
-Definition reachable_from (s : state zvec) (a : Z) : Z :=
-  zlen (reach_fuel (fuel_of (nodes s)) (nodes s) [a] []).
-(** the node the layer-0 beam search of [search_with_ef] starts from *)
-Definition start0 (mt : metric) (s : state zvec) (q : zvec) : option Z :=
-  match entry s with
-  | Some ep => Some (descend zvec Z (zdist mt) ztop Z.ltb (nodes s) q (max_level s) 0 ep)
-  | None => None
-  end.
-Definition unreachable_state (mt : metric) (q : zvec) (s : state zvec) : bool :=
-  match start0 mt s q with
-  | Some a => reachable_from s a <? zlen (nodes s)
-  | None => false
-  end.
-(** finding class C18-K1: the history (whose last operation is the short search, reproduced by
-    the model) leaves a live node that layer-0 links do not reach from the search's start *)
-Definition k_unreachable (mt : metric) (c : config) (ops : list hop) : bool :=
-  match last ops (HLen 0) with
-  | HSearch q _ _ _ =>
-      match hrun mt c [empty] ops 0 with
-      | (n, ss) => (n =? zlen ops) && existsb (unreachable_state mt q) ss
-      end
-  | _ => false
-  end.
 
 (** ---- the std BinaryHeap premise: the transcription against the real heap ---- *)
 Definition chk_bheap (ops : list (option (Z * Z))) (final : list (Z * Z)) : bool :=
@@ -187,3 +186,50 @@ Definition chk_squant (mins : zvec) (es : zvec) (v : zvec) (codes : zvec) (deq_b
   let model := sq_quantize_grid mins es v in
   list_eqb Z.eqb model codes
   && list_eqb (fun p b => f32_is_int b p) (sq_dequantize_grid mins es codes) deq_bits.
+
+(** ---- QuantizedHnswIndex (quantized_hnsw.rs) ---- *)
+(** The inner HnswIndex is private; the harness drives a twin HnswIndex::with_seed with the same
+    configuration, seed and operations (same RNG => same levels => same graph) and replays the
+    twin's history [ops] in the model.  [pre]: 0 = none (scalar, and any untrained/None index with
+    mults = [] ), 1 = ranking by [keys] (binary: id |-> hamming distance to the query).
+    [impl] = None: the search panicked. [cmp_dist] = false: ids only (binary without rescoring
+    reports the hamming estimate, not a distance). *)
+Definition key_of (keys : list (Z * Z)) (i : Z) : option Z :=
+  match find (fun p => fst p =? i) keys with Some p => Some (snd p) | None => None end.
+Definition chk_qsearch (mt : metric) (c : config) (ops : list hop) (q : zvec) (k ef : Z) (mults : list Z)
+           (resc : bool) (pre : Z) (keys : list (Z * Z)) (cmp_dist : bool) (impl : option (list (Z * Z))) : bool :=
+  match hrun mt c [empty] ops 0 with
+  | (n, ss) =>
+    (n =? zlen ops) &&
+    existsb (fun s =>
+      let p := if pre =? 0 then pre_none else pre_rank Z.leb (key_of keys) in
+      match qsearch (zext mt) (zdist mt) s q k ef mults resc p, impl with
+      | QPanic, None => true
+      | QOk r, Some i => if cmp_dist then res_ok mt r i else list_eqb Z.eqb (map fst r) (map fst i)
+      | _, _ => false
+      end) ss
+  end.
+(** finding class C18-K3: the candidate count k x rescore_factor (x 2 for binary) does not fit a usize *)
+Definition k_qoverflow (k : Z) (mults : list Z) (resc : bool) : bool :=
+  resc && match num_candidates k mults with None => true | Some _ => false end.
+
+(** ---- brute_force_knn on distances that may be NaN ([None]); keys are order-preserving
+    integer images of the f32 distances ---- *)
+Definition okey_eqb (a b : option Z) : bool := opt_eqb Z.eqb a b.
+Definition chk_brute_keys (xs : list (Z * option Z)) (k : Z) (impl : list (Z * option Z)) : bool :=
+  list_eqb (fun a b => (fst a =? fst b) && okey_eqb (snd a) (snd b)) (brute_keys leb_pc xs k) impl.
+(** finding class C18-K2: some distance is NaN *)
+Definition k_nan_distance (xs : list (Z * option Z)) : bool := existsb (fun p => is_nan (snd p)) xs.
+
+(** ---- VectorScanOperator / VectorJoinOperator output loops ---- *)
+Definition zz_eqb (a b : Z * Z) : bool := (fst a =? fst b) && (snd a =? snd b).
+Definition chk_scan (cap : nat) (res : list (Z * Z)) (impl : list (list (Z * Z))) : bool :=
+  list_eqb (list_eqb zz_eqb) (scan_chunks cap res) impl.
+Definition jrow_eqb (a b : Z * (Z * Z)) : bool := (fst a =? fst b) && zz_eqb (snd a) (snd b).
+(** [calls] next() calls were made; [fin] = the last one returned None; [bad] = the harness saw
+    the operator's output differ from the join.  The finding class must say exactly that. *)
+Definition chk_join (cap calls : nat) (rows : list (Z * list (Z * Z))) (impl : list (list (Z * (Z * Z)))) (fin bad : bool) : bool :=
+  match jrun calls cap (jinit rows) with
+  | (chs, f) => list_eqb (list_eqb jrow_eqb) chs impl && Bool.eqb f fin && Bool.eqb (k_join_boundary cap rows) bad
+  end.
+Definition k_join (cap : nat) (rows : list (Z * list (Z * Z))) : bool := k_join_boundary cap rows.
